@@ -136,6 +136,9 @@ structure Sound (o : Obj K) (D : Mx K) : Prop where
   lin : o.md.cls ≠ .op
   ev : EvalIs o D
   ad : AdjIs o D
+  /-- the arrays returned by the closures have the declared sizes -/
+  evSz : ∀ x : Vc K, (o.eval x).size = o.m
+  adSz : ∀ y : Vc K, (o.adj y).size = o.n
   pl : PayloadIs o D
   mode : Mode o
 
